@@ -48,12 +48,15 @@ def run(ctx):
         raise MachineryFault("Include.tla: %s violated on the model (a lead, not a verdict); see %s" % (inc.violated, inc.out_path))
     runs = [inc]
     if quick:
-        confs = [("passes-2users", {"NUsers": "2", "MaxEdges": "8", "Sample": "0", "Decls": D5}),
-                 ("passes-3users-sample", {"NUsers": "3", "MaxEdges": "6", "Sample": "1500", "Decls": D2})]
+        confs = [("passes-2users", {"NRoots": "2", "NUsers": "2", "MaxEdges": "8", "Sample": "0", "Decls": D5}),
+                 # chains of different length into one helper that calls a further helper need 3 users and 4 calls
+                 ("passes-3users-4calls", {"NRoots": "2", "NUsers": "3", "MaxEdges": "4", "Sample": "0", "Decls": "{}"}),
+                 ("passes-5users-3roots-sample", {"NRoots": "3", "NUsers": "5", "MaxEdges": "9", "Sample": "1500", "Decls": D2})]
     else:
-        confs = [("passes-2users", {"NUsers": "2", "MaxEdges": "8", "Sample": "0", "Decls": D5}),
-                 ("passes-3users", {"NUsers": "3", "MaxEdges": "3", "Sample": "0", "Decls": D2}),
-                 ("passes-4users-sample", {"NUsers": "4", "MaxEdges": "7", "Sample": "4000", "Decls": D2})]
+        confs = [("passes-2users", {"NRoots": "2", "NUsers": "2", "MaxEdges": "8", "Sample": "0", "Decls": D5}),
+                 ("passes-3users-4calls", {"NRoots": "2", "NUsers": "3", "MaxEdges": "4", "Sample": "0", "Decls": D2}),
+                 ("passes-3users-3roots", {"NRoots": "3", "NUsers": "3", "MaxEdges": "3", "Sample": "0", "Decls": "{}"}),
+                 ("passes-6users-3roots-sample", {"NRoots": "3", "NUsers": "6", "MaxEdges": "12", "Sample": "6000", "Decls": D2})]
     for tag, defs in confs:
         m = ctx.tlc("LintPasses", defines=defs, timeout=2400, tag=tag)
         if m.violated:
@@ -82,7 +85,8 @@ def run(ctx):
         for m in runs:
             for l in open(m.beh_path):
                 yield l
-    args = ["c11replay", "-runs", "4" if quick else "12", "-perms", "3" if quick else "8", "-falco", falco]
+    args = ["c11replay", "-runs", "6" if quick else "12", "-perms", "3" if quick else "8", "-falco", falco,
+            "-fresh-every", "40" if quick else "15"]
     args += ["-bin-every", "40"] if quick else ["-bin-every", "8", "-bin-cyclic"]
     ress, total = wlint.replay_sharded(ctx, "vhc11", args, lines(), "c11", timeout=3000)
     seen = set()
